@@ -128,6 +128,18 @@ Theorem C16_no_panic_cert_object_name_slash : forall path, wf_utf8 path = true -
   cert_object_name path <> PPanic.
 Proof. exact no_panic_cert_object_name_slash. Qed.
 
+(** URIs built from a handle (config.rs:1005-1013, server/ca/manager.rs:900-909), repaired tree
+    (findings F16c / F16d, commit 27402048: the result used to be unwrapped and a handle with a
+    backslash - accepted by rpki feature "compat" - panicked). *)
+Theorem C16_no_panic_handle_uris : forall base h, rfc8181_uri base h <> PPanic /\ service_uri_for_ca base h <> PPanic.
+Proof. exact no_panic_handle_uris. Qed.
+
+Theorem C16_handle_uri_ok_without_backslash : forall base s h, valid_base base -> base <> [] ->
+  handle_from_str s = POk h -> existsb (N.eqb 92) h = false ->
+  rfc8181_uri base h = POk (base ++ RFC8181_SEG ++ h ++ [47]) /\
+  service_uri_for_ca base h = POk (base ++ RFC6492_SEG ++ h).
+Proof. exact handle_uri_ok_without_backslash. Qed.
+
 (** *** ASPA / BGPsec notations (api/aspa.rs, api/bgpsec.rs; rpki Asn::from_str) *)
 (** F16b: rpki's Asn::from_str slices [s[..2]] without a char-boundary check. *)
 Theorem C16_rpki_asn_no_panic_refuted : ~ (forall s, wf_utf8 s = true -> rpki_asn_from_str s <> PPanic).
@@ -194,6 +206,8 @@ Print Assumptions C16_no_panic_user_agent.
 Print Assumptions C16_cert_object_name_no_panic_refuted.
 Print Assumptions C16_no_panic_cert_object_name_ascii.
 Print Assumptions C16_no_panic_cert_object_name_slash.
+Print Assumptions C16_no_panic_handle_uris.
+Print Assumptions C16_handle_uri_ok_without_backslash.
 Print Assumptions C16_rpki_asn_no_panic_refuted.
 Print Assumptions C16_rpki_asn_panics_iff.
 Print Assumptions C16_rpki_asn_no_panic_ascii.
